@@ -23,6 +23,9 @@ type CheckSpec struct {
 	Rule       string
 	RealStub   map[string]string
 	Assumptions []string
+	// Enum, when set, lists a finite case space that is executed completely
+	// (by worker 0) instead of drawing programs with rapid.
+	Enum       func() []*Program
 	Level      string // evidence level (exploration | fault_enumeration | ...)
 	Quick      int    // total runs, quick tier (all workers together)
 	Thorough   int    // total runs, thorough tier
@@ -87,6 +90,7 @@ type Report struct {
 	Other       map[string]int    `json:"other_props"` // violations of other properties seen (rule -> n), informational
 	Failure     *Failure          `json:"failure,omitempty"`
 	Trouble     string            `json:"trouble,omitempty"`
+	Exhaustive  bool              `json:"exhaustive,omitempty"`
 
 	EventSink        *os.File `json:"-"`
 	IgnoreViolations bool     `json:"-"`
@@ -211,6 +215,38 @@ func Classify(prop string, vs []Violation, known []KnownFinding) (own []Violatio
 // RunCheck is the body shared by the go-test entry point.
 // Returns exit code semantics via the report: Failure (1) / Trouble (2).
 func RunCheck(t rapid.TB, spec *CheckSpec, rep *Report, known []KnownFinding) {
+	if spec.Enum != nil {
+		if os.Getenv("VERIF_WORKER_INDEX") != "0" {
+			return
+		}
+		rep.Exhaustive = true
+		for _, p := range spec.Enum() {
+			res := spec.Run(p)
+			rep.Record(spec, p, res)
+			if rep.EventSink != nil {
+				fmt.Fprintf(rep.EventSink, "== %s\n%s\n", p.Hash(), strings.Join(res.Events, "\n"))
+			}
+			if res.Trouble != "" {
+				rep.Trouble = res.Trouble + "\nprogram: " + string(mustJSON(p))
+				t.Fatalf("TROUBLE: %s", res.Trouble)
+			}
+			own, hits, other := Classify(spec.Prop, res.Violations, known)
+			for _, h := range hits {
+				rep.Known[h]++
+			}
+			for _, o := range other {
+				rep.Other[o]++
+			}
+			if len(own) > 0 && !rep.IgnoreViolations && rep.Failure == nil {
+				v := own[0]
+				rep.Failure = &Failure{Violation: v, Signature: v.Signature(), Program: mustJSON(p), Events: res.Events, size: len(mustJSON(p))}
+			}
+		}
+		if rep.Failure != nil {
+			t.Fatalf("VIOLATION %s", rep.Failure.Violation.String())
+		}
+		return
+	}
 	rapid.Check(t, func(rt *rapid.T) {
 		p := spec.Gen(rt)
 		res := spec.Run(p)
